@@ -56,6 +56,18 @@ def rule(fn, kind, expr, ordn, guards, contract):
         if expr == 'from[i]':
             n = [['!(i == l)'], ['!(l < 2)'], ['for i < l']][ordn]
         return thm('C07', 'parseISO8601_never_panics', need(*n))
+    # ---------------- crypto: calls to partial internal functions ----------------
+    if contract.startswith('internal:'):
+        sw = [c for c in guards if c.startswith('switch algorithm case')]
+        if 'getSHAHash' in expr:
+            return thm('C03', 'Kit.CryptoGlue.asym_never_panics', need(*sw[:1]) if sw else need('switch algorithm case'))
+        side = 'Kit.C07.encryptSymmetric_never_panics' if 'ncrypt' in fn and ('encrypt' in expr or fn.startswith('crypto.encrypt')) else 'Kit.C07.decryptSymmetric_never_panics'
+        if expr.startswith('expectedKeySize('):
+            # inside a helper that is itself in `partialFunctions`: its callers are sites with the switch guard
+            return thm('C07Imported', side, [])
+        return thm('C07Imported', side, need(*sw[:1]) if sw else need('switch algorithm case'))
+    if fn == 'crypto.getSHAHash':
+        return thm('C03', 'Kit.CryptoGlue.asym_never_panics', [])
     # ---------------- crypto ----------------
     if fn in ('crypto.encryptPublicKeyRSAOAEP', 'crypto.decryptPrivateKeyRSAOAEP'):
         return '.byFact "hash packages in the transitive imports of package crypto" "crypto/sha1,crypto/sha256,crypto/sha512" "crypto.Hash.New panics only for a hash that is not linked in; getSHAHash is called with the *-256/384/512 names only (C03 dispatch_never_out_of_range)"'
@@ -90,7 +102,7 @@ def rule(fn, kind, expr, ordn, guards, contract):
             return '.sizeFromLen "len(ciphertext)+len(tag)"'
         return thm('C07Imported', 'Kit.C07.decryptSymmetric_never_panics', need('!(err != nil)'))
     if fn == 'crypto.expectedKeySize':
-        return thm('C03', 'Kit.CryptoGlue.dispatch_never_out_of_range', [])
+        return thm('C07Imported', 'Kit.C07.encryptSymmetric_never_panics', [])
     # ---------------- crypto/pem ----------------
     if fn == 'crypto/pem.DecodePEMCertificates' and kind == 'loop':
         return thm('C07', 'decodeCertificates_terminates', [])
